@@ -36,6 +36,8 @@ func genGrp(r *Rng, tier string) *Enc {
 		alpha := []any{1, 2, "a", "b", nil, true, int64(1)}
 		if r.Chance(6) {
 			alpha = []any{"NaN", "nan", "Inf", "1", "1.0", "a"} // texts that SPELL numbers are still just texts
+		} else if r.Chance(6) {
+			alpha = []any{"IT", "IT ", "HR", "HR ", " IT", "it"} // keys differing only in blanks or case are different keys
 		}
 		if collide {
 			alpha = grpKeyAlpha
